@@ -35,6 +35,7 @@ RhsRefs == {Shared, Val(R0), Val(R1), Val(R2), Val(R3), Val(R4)}
 
 D2 == [cls |-> "range", size |-> 2, vals |-> <<0, 1>>]
 D3 == [cls |-> "range", size |-> 3, vals |-> <<0, 1, 2>>]
+D0 == [cls |-> "range", size |-> 0, vals |-> <<>>]          \* the EMPTY domain binds a node label like any other
 F2 == [doms |-> <<D2>>, shape |-> <<2>>, w |-> <<1, 2>>]
 F3 == [doms |-> <<D3>>, shape |-> <<3>>, w |-> <<1, 2, 3>>]
 F22 == [doms |-> <<D2, D2>>, shape |-> <<2, 2>>, w |-> <<1, 2, 3, 4>>]
@@ -56,7 +57,7 @@ HrgCalls ==
   \cup { [op |-> "new_rule", h |-> h, name |-> n, rhs |-> r] : h \in HH, n \in {"S", "X"}, r \in RhsRefs }
   \cup { [op |-> "copy", h |-> h] : h \in HH }
 InterpCalls == IF ~WithInterp THEN {} ELSE
-       { [op |-> "add_domain", h |-> h, nl |-> nl, dom |-> d] : h \in HH, nl \in {"A", "B"}, d \in {D2, D3} }
+       { [op |-> "add_domain", h |-> h, nl |-> nl, dom |-> d] : h \in HH, nl \in {"A", "B"}, d \in {D0, D2, D3} }
   \cup { [op |-> "add_factor", h |-> h, el |-> l, fac |-> f] : h \in HH, l \in {La, La2, LX, LXt}, f \in {F2, F3, F22, F0} }
   \cup { [op |-> "set_weights", h |-> h, name |-> "a", w |-> <<7, 8>>] : h \in HH }
 Calls == IF WithInterp THEN InterpCalls \cup { c \in HrgCalls : c.op \in {"new_hrg", "copy", "add_edge_label"} }
